@@ -97,6 +97,8 @@ OnR ==
                            THEN {m \in 1..(n-1) : sent[m].tag = sent[n].oldtag /\ replied[m] = 0 /\ m \notin away}
                            ELSE {} IN
        /\ ((cands = {}) => Verdict("C07", "reply-after-rflush", <<n, t, E.type>>))
+       \* ... and once the client has read the Rflush the old tag has no outstanding request any more (C03)
+       /\ ((cands = {}) => Verdict("C03", "reply-after-rflush", <<n, t, E.type>>))
        \* C04: the destruction of a fid is reported no later than the reply that invalidates it
        \* (judged only when no other unanswered request names that fid: one in progress legitimately keeps it alive)
        /\ (((t = "Tclunk" /\ E.type = "Rclunk") \/ t = "Tremove") /\ n \notin dseen /\ answers[n] # {}
